@@ -23,7 +23,7 @@ import (
 const SimsyncImport = "github.com/cbeuw/Cloak/internal/simsync"
 
 // Packages instrumented (relative to the repository root).
-var Packages = []string{"internal/multiplex", "internal/server", "internal/client", "internal/common"}
+var Packages = []string{"internal/multiplex", "internal/server", "internal/server/usermanager", "internal/client", "internal/common"}
 
 type Stats struct {
 	Files     int
@@ -32,6 +32,7 @@ type Stats struct {
 	MapRanges int
 	Timers    int
 	TypeSeams int
+	TxCallbacks int
 	// RangesUnknown lists range statements whose operand type could not be
 	// resolved (possible un-rewritten map iteration).
 	RangesUnknown []string
@@ -180,6 +181,16 @@ func (in *inst) file(f *ast.File) {
 	ast.Inspect(f, func(n ast.Node) bool {
 		switch n := n.(type) {
 		case *ast.CallExpr:
+			if se, ok := n.Fun.(*ast.SelectorExpr); ok && (se.Sel.Name == "Update" || se.Sel.Name == "View" || se.Sel.Name == "Batch") && len(n.Args) == 1 {
+				if fl, ok := n.Args[0].(*ast.FuncLit); ok {
+					// a database transaction callback: no scheduling point inside
+					// (helpers it calls are instrumented functions of the package)
+					enter := &ast.ExprStmt{X: &ast.CallExpr{Fun: sel("simsync", "AtomicEnter")}}
+					leave := &ast.DeferStmt{Call: &ast.CallExpr{Fun: sel("simsync", "AtomicLeave")}}
+					fl.Body.List = append([]ast.Stmt{enter, leave}, fl.Body.List...)
+					in.st.TxCallbacks++
+				}
+			}
 			if se, ok := n.Fun.(*ast.SelectorExpr); ok {
 				if id, ok := se.X.(*ast.Ident); ok && id.Name == "time" && se.Sel.Name == "AfterFunc" && len(n.Args) == 2 {
 					n.Fun = sel("simsync", "AfterFuncAt")
